@@ -7,6 +7,7 @@ pub async fn on_did_change_watched_files(
     context: ServerContextSnapshot,
     params: DidChangeWatchedFilesParams,
 ) -> Option<()> {
+    // Lock order: workspace_manager (read) -> analysis (write) -> diagnostic_tokens.
     let workspace = context.workspace_manager().read().await;
     let mut analysis = context.analysis().write().await;
     let emmyrc = analysis.get_emmyrc();
@@ -47,11 +48,9 @@ pub async fn on_did_change_watched_files(
                     continue;
                 }
                 let config_path = uri_to_file_path(&file_event.uri).unwrap();
-                context
-                    .workspace_manager()
-                    .read()
-                    .await
-                    .add_update_emmyrc_task(context.clone(), config_path);
+                // `workspace` is the read guard taken above: asking for the lock again here would
+                // queue behind any writer that arrived in between and deadlock on ourselves.
+                workspace.add_update_emmyrc_task(context.clone(), config_path);
             }
             None => {}
         }
